@@ -136,13 +136,13 @@ def kindAfter (k : Kind) (e : Ext) : Kind :=
   | k => k
 
 /-- one operation on the abstract state (an incompatible `extend_*` fails and changes nothing;
-`truncate` leaves a single string alone) -/
+`truncate` keeps the first `n` items; a single string that loses its item becomes the empty value) -/
 def absStep (ops : FloatOps) (a : Abs) : Op → Abs
   | .extend e =>
     if compatibleK a.kind e then ⟨kindAfter a.kind e, a.items ++ appendedK ops a.kind e⟩ else a
   | .truncate n =>
     match a.kind with
-    | .str => a
+    | .str => if n = 0 then ⟨.empty, []⟩ else ⟨.str, a.items.take n⟩
     | _ => ⟨a.kind, a.items.take n⟩
 
 def absRun (ops : FloatOps) (a : Abs) (h : List Op) : Abs := h.foldl (absStep ops) a
